@@ -466,7 +466,11 @@ def rule_nan(ctx):
         e0, e1 = oi_st[0].value.elts
         fact = norm(oi_st[0].value)
         oiname = norm(oi_st[0].targets[0])
-        oko = norm(e0) == "np.arange(%s.time.size)[%s]" % (P1, masks[P1]) and norm(e1) == "np.arange(%s.time.size)[%s]" % (P2, masks[P2])
+        def sized(e_, who):
+            t_ = str(norm(e_)).replace(" ", "")
+            return any(t_ == "np.arange(%s)[%s]" % (sz_ % who, masks[who]) for sz_ in (
+                "%s.time.size", "%s.time.values.size", "%s['time'].size", "%s[\"time\"].size", "len(%s.time)", "%s.time.shape[0]", "%s.time.values.shape[0]", "len(%s.time.values)"))
+        oko = sized(e0, P1) and sized(e1, P2)
     ctx.ob("Collocator.collocate.original_indices", oko, "original_indices = %s" % fact,
            "[arange(primary size)[primary mask], arange(secondary size)[secondary mask]] in this order", node=oi_st[0] if oi_st else f.node, func=f)
     # every _create_return gets _to_original(pairs..., original_indices)
@@ -722,9 +726,9 @@ def rule_offsets(ctx):
     for st in walk_no_nested(sb.node):
         if isinstance(st, ast.Assign) and isinstance(st.targets[0], ast.Tuple) and calls_in(st.value, "spatial_search"):
             pn = norm(st.targets[0].elts[0])
+    sflow = Flow(sb)
     if not adds and pn is not None:
         # out of place: return np.array([pairs[0] + o1, pairs[1] + o2]), distances
-        sflow = Flow(sb)
         for r_ in [x for x in sflow.stmts if isinstance(x, ast.Return) and isinstance(x.value, ast.Tuple) and len(x.value.elts) == 2]:
             v_ = sflow.resolve(r_.value.elts[0], at=r_, depth=2, stop=(pn, o1, o2, d1, d2))
             if isinstance(v_, ast.Call) and (dotted(v_.func) or "").split(".")[-1] in ("array", "vstack", "stack", "asarray") and len(v_.args) == 1 \
@@ -736,6 +740,18 @@ def rule_offsets(ctx):
                             adds[l_] = r2_
                         elif r2_.startswith(pn + "["):
                             adds[r2_] = l_
+    if not adds and pn is not None:
+        # broadcast form: pairs + np.array([[o1], [o2]])  (a column vector: row 0 + o1, row 1 + o2)
+        for r_ in [x for x in sflow.stmts if isinstance(x, ast.Return) and isinstance(x.value, ast.Tuple) and len(x.value.elts) == 2]:
+            v_ = sflow.resolve(r_.value.elts[0], at=r_, depth=2, stop=(pn, o1, o2, d1, d2))
+            if isinstance(v_, ast.BinOp) and isinstance(v_.op, ast.Add):
+                for arr_, vec_ in ((v_.left, v_.right), (v_.right, v_.left)):
+                    if isinstance(vec_, ast.Call) and (dotted(vec_.func) or "").split(".")[-1] in ("array", "asarray") and len(vec_.args) == 1:
+                        vec_ = vec_.args[0]
+                    if str(norm(arr_)) == pn and isinstance(vec_, (ast.List, ast.Tuple)) and len(vec_.elts) == 2 \
+                            and all(isinstance(e_, (ast.List, ast.Tuple)) and len(e_.elts) == 1 for e_ in vec_.elts):
+                        adds["%s[0]" % pn] = str(norm(vec_.elts[0].elts[0]))
+                        adds["%s[1]" % pn] = str(norm(vec_.elts[1].elts[0]))
     oka = adds == {"%s[0]" % pn: o1, "%s[1]" % pn: o2}
     ctx.ob("Collocator._spatial_search_bin.offsets", okc and oka, "search(%s); additions %s" % ([norm(a) for a in ss[0].args[:4]] if ss else None, adds),
            "chunk of field 2 searched as first dataset, offset of field 1 added to row 0; field 4 second, offset of field 3 to row 1", node=sb.node, func=sb)
